@@ -468,11 +468,11 @@ pub fn gen_history(rng: &mut Rng) -> Vec<Op> {
             55..=62 => Op::VaultCreate { who: if rng.chance(1, 8) { 3 } else { 1 }, asset: if rng.chance(1, 3) { 8 + rng.below(4) as usize } else { rng.below(8) as usize },
                                          f: if rng.chance(1, 2) { fee_triple(rng, true) } else { gen_fees(rng) }, tf: rng.chance(1, 8) },
             63..=72 if nv > 0 => { let i = rng.below(nv as u64) as usize; Op::VaultUpd { who: gen_who_child(rng, vk[i]), i, f: if rng.chance(1, 8) { None } else { Some(gen_fees_c(rng)) } } }
-            73..=76 => Op::DistInst(*rng.pick(&[0u64, 1, 2, 15, 29, 30, 31, u64::MAX]), *rng.pick(&[DAY_NS - 1, DAY_NS, DAY_NS + 1, 0, 7 * DAY_NS, u64::MAX])),
+            73..=76 => Op::DistInst(*rng.pick(&[0u64, 1, 2, 15, 29, 30, 31, u64::MAX, (1u64 << 32) + 1, (1u64 << 32) + 30, (1u64 << 32)]), *rng.pick(&[DAY_NS - 1, DAY_NS, DAY_NS + 1, 0, 7 * DAY_NS, u64::MAX])),
             77..=84 if nd > 0 => {
                 let i = rng.below(nd as u64) as usize;
                 let g0 = grace_seen.get(i).copied().unwrap_or(1);
-                let grace = match rng.below(8) { 0 => None, 1 => Some(g0.saturating_sub(1)), 2 => Some(g0), 3 => Some(g0 + 1), 4 => Some(30), 5 => Some(31), 6 => Some(0), _ => Some(1 + rng.below(31)) };
+                let grace = match rng.below(8) { 0 => None, 1 => Some(g0.saturating_sub(1)), 2 => Some(g0), 3 => Some(g0 + 1), 4 => Some(30), 5 => Some(31), 6 => Some(if rng.chance(1, 2) { 0 } else { (1u64 << 32) + 1 + rng.below(30) }), _ => Some(1 + rng.below(31)) };
                 // durations include multiples of a day, so that a lower grace period can come together with a longer epoch
                 let dur = match rng.below(8) { 0 => Some(DAY_NS - 1), 1 => Some(DAY_NS), 2 => Some(DAY_NS + 1), 3 => Some(0), 4 => Some(2 * DAY_NS), 5 => Some(7 * DAY_NS), _ => None };
                 Op::DistUpd { who: gen_who(rng), i, grace, dur }
